@@ -262,9 +262,10 @@ pub const ELEM_FNS: &[FnSpec] = &[
     FnSpec { name: "tanh", dom: &[(-4.0, 4.0), (-40.0, 40.0), (700.0, 760.0), (-760.0, -700.0), (80.0, 100.0)] },
     FnSpec { name: "asin", dom: &[(-0.95, 0.95)] },
     FnSpec { name: "acos", dom: &[(-0.95, 0.95)] },
-    FnSpec { name: "atan", dom: &[(-20.0, 20.0)] },
-    FnSpec { name: "asinh", dom: &[(-20.0, 20.0)] },
-    FnSpec { name: "acosh", dom: &[(1.05, 20.0)] },
+    // (large arguments: the closed forms switch to r = 1/x above 1 resp. 2; x * x overflows f32 above 1.8e19)
+    FnSpec { name: "atan", dom: &[(-20.0, 20.0), (-20.0, 20.0), (1e3, 1e4), (-1e9, -1e8), (1e19, 1e21), (-1e30, -1e25)] },
+    FnSpec { name: "asinh", dom: &[(-20.0, 20.0), (-20.0, 20.0), (1e3, 1e4), (-1e9, -1e8), (1e19, 1e21), (-1e30, -1e25)] },
+    FnSpec { name: "acosh", dom: &[(1.05, 20.0), (1.05, 20.0), (1e3, 1e4), (1e8, 1e9), (1e19, 1e21), (1e25, 1e30)] },
     FnSpec { name: "atanh", dom: &[(-0.95, 0.95)] },
 ];
 
@@ -367,7 +368,8 @@ impl<'a> TypeFn for Sweep<'a> {
                         map.get(sym).map(|v| VM { v: *v, m: v.abs() })
                     })?;
                     let obs = *got.get(&format!("r{path}")).unwrap_or(&0.0);
-                    let tol = self.k_tol * u * exp.m + f64::MIN_POSITIVE;
+                    // (absolute floor: results below the normal range of the float type underflow)
+                    let tol = self.k_tol * u * exp.m + if u > 1e-10 { 1e-36 } else { f64::MIN_POSITIVE };
                     let err = (obs - exp.v).abs();
                     self.report.parts_compared += 1;
                     let ratio = if exp.m > 0.0 { err / (u * exp.m) } else if err == 0.0 { 0.0 } else { f64::INFINITY };
